@@ -678,7 +678,10 @@ def check_lexer_primitives(ctx, rep, rule):
         v = uncast(v)
         return name in fi and v in (('ref', '_1.*.f%d' % fi[name]), ('field', ('deref', ('local', 1)), name))
 
-    stored_pos = 'pos' in fi
+    # the byte counter, whatever it is called: the one field of the tokenizer that is a usize
+    usz = [f['name'] for f in tk['variants'][0]['fields'] if f['ty'].replace(' ', '') == 'usize']
+    POS = 'pos' if 'pos' in fi else (usz[0] if len(usz) == 1 else 'pos')
+    stored_pos = POS in fi
     # two representations of `how far are we`: a byte counter kept by bump (pos), or none at all - the position is then the part
     # of `input` the character iterator no longer covers (input.len() - chars.as_str().len())
     # peek: a clone of the character iterator is advanced, self is not written
@@ -708,7 +711,7 @@ def check_lexer_primitives(ctx, rep, rule):
             ok = False
             continue
         r = simp(p.env.get('_0'))
-        posw = [w for w in p.writes if w[1] == '_1.*.f%d' % fi.get('pos', -1)]
+        posw = [w for w in p.writes if w[1] == '_1.*.f%d' % fi.get(POS, -1)]
         if not stored_pos:
             # no counter to keep: bump is exactly the iterator's next()
             somes += 1
@@ -724,7 +727,7 @@ def check_lexer_primitives(ctx, rep, rule):
                 if v[0] == 'field' and v[1][0] == 'binop':
                     v = v[1]
                 s_ = show(v)
-                adv = v[0] == 'binop' and v[1] in ('Add', 'AddWithOverflow') and 'len_utf8' in s_ and '.pos' in s_
+                adv = v[0] == 'binop' and v[1] in ('Add', 'AddWithOverflow') and 'len_utf8' in s_ and ('.' + POS) in s_
             ok = ok and got and adv and len([w for w in p.writes if w[1].startswith('_1.*')]) == 1
         else:
             ok = ok and not posw
@@ -733,7 +736,7 @@ def check_lexer_primitives(ctx, rep, rule):
     fn = F.fn(T + 'offset')
     ps = [p for p in AbsInt(F, fn).run() if p.exit == 'return']
     if stored_pos:
-        ok = len(ps) == 1 and not ps[0].calls and uncast(ps[0].env.get('_0')) == ('field', ('deref', ('local', 1)), 'pos')
+        ok = len(ps) == 1 and not ps[0].calls and uncast(ps[0].env.get('_0')) == ('field', ('deref', ('local', 1)), POS)
     else:
         ok = len(ps) == 1
         if ok:
@@ -757,7 +760,7 @@ def check_lexer_primitives(ctx, rep, rule):
                 rep.ob(ok, rule, fn.path, 'contract', 'is_eof() = chars.as_str().is_empty()', fn.loc())
                 ok = None
             else:
-                ok = r[0] == 'binop' and r[1] in ('Ge', 'Eq') and ('offset(' in show(r[2]) or '.pos' in show(r[2]))
+                ok = r[0] == 'binop' and r[1] in ('Ge', 'Eq') and ('offset(' in show(r[2]) or ('.' + POS) in show(r[2]))
             if ok:
                 ln = uncast(r[3])
                 ok = ln[0] == 'call' and ln[1].endswith('::len') and bool(ln[2])
@@ -777,7 +780,7 @@ def check_lexer_primitives(ctx, rep, rule):
                 vals = dict(zip(fields, r[3]))
                 ch = vals.get('chars')
                 is_in = lambda x: uncast(x) in (('local', 1), ('ref', '_1.*'))
-                ok = vals.get('pos', ('int', 0, 'usize')) == ('int', 0, 'usize') and is_in(vals.get('input')) and ch[0] == 'call' and ch[1].endswith('::chars') and is_in(ch[2][0])
+                ok = vals.get(POS, ('int', 0, 'usize')) == ('int', 0, 'usize') and is_in(vals.get('input')) and ch[0] == 'call' and ch[1].endswith('::chars') and is_in(ch[2][0])
     rep.ob(ok, rule, 'lexer::Tokenizer::new', 'contract', 'a tokenizer starts at position 0 with the character iterator of the text it stores', fn.loc() if fn else 'src/lexer.rs')
 
 
